@@ -191,8 +191,10 @@ func NewSSHKeys(nCerts, nPlain int) (*SSHKeys, error) {
 		}
 		var k ssh.PublicKey = sshPub
 		if i < nCerts {
+			// principals as the CA wrote them: several, not in lexical order (what comes back must be these bytes)
+			prins := [][]string{{"user"}, {"zeta", "alice"}, {"b", "a", "c", "B", "a"}, nil}[i%4]
 			crt := &ssh.Certificate{
-				KeyId: fmt.Sprintf("harness-%d", i), CertType: ssh.UserCert, ValidPrincipals: []string{"user"},
+				KeyId: fmt.Sprintf("harness-%d", i), CertType: ssh.UserCert, ValidPrincipals: prins,
 				Key: sshPub, ValidAfter: uint64(time.Now().Unix()) - 60, ValidBefore: uint64(time.Now().Unix()) + 3600,
 			}
 			if err := crt.SignCert(rand.Reader, caSigner); err != nil {
